@@ -1707,6 +1707,33 @@ bool TypeChecker::checkExpression(expression_t expr)
             return false;
         }
         break;
+    case FORALL_DYNAMIC:
+        // typed like the quantifier over a range: a quantified clock constraint is not a boolean
+        if (is_integral(expr[2])) {
+            type = type_t::create_primitive(Constants::BOOL);
+        } else if (is_invariant(expr[2])) {
+            type = type_t::create_primitive(INVARIANT);
+        } else if (isInvariantWR(expr[2])) {
+            type = type_t::create_primitive(INVARIANT_WR);
+        } else if (is_guard(expr[2])) {
+            type = type_t::create_primitive(GUARD);
+        } else if (is_constraint(expr[2])) {
+            type = type_t::create_primitive(CONSTRAINT);
+        } else {
+            handleError(expr[2], "$Boolean_expected");
+            return false;
+        }
+        break;
+    case EXISTS_DYNAMIC:
+        if (is_integral(expr[2])) {
+            type = type_t::create_primitive(Constants::BOOL);
+        } else if (is_constraint(expr[2])) {
+            type = type_t::create_primitive(CONSTRAINT);
+        } else {
+            handleError(expr[2], "$Boolean_expected");
+            return false;
+        }
+        break;
     case FRACTION:
         if (is_integral(expr[0]) && is_integral(expr[1])) {
             type = type_t::create_primitive(Constants::FRACTION);
